@@ -154,6 +154,77 @@ EXEMPT = {
 }
 
 
+def bool_flags(fn):
+    """Local names that are only ever assigned the constants True / False."""
+    vals = {}
+    for n in ast.walk(fn):
+        if isinstance(n, ast.Assign):
+            for t in n.targets:
+                for x in ([t] if not isinstance(t, (ast.Tuple, ast.List)) else t.elts):
+                    if isinstance(x, ast.Name):
+                        vals.setdefault(x.id, []).append(n.value if not isinstance(t, (ast.Tuple, ast.List)) else None)
+        elif isinstance(n, (ast.AugAssign, ast.For, ast.comprehension, ast.NamedExpr)):
+            tgt = n.target
+            for x in ast.walk(tgt):
+                if isinstance(x, ast.Name):
+                    vals.setdefault(x.id, []).append(None)
+    params = {a.arg for a in fn.args.args + fn.args.kwonlyargs}
+    return {k for k, vs in vals.items() if k not in params and all(isinstance(v, ast.Constant) and isinstance(v.value, bool) for v in vs)}
+
+
+def flag_feasible(g, fn, wid, rid_, avoid):
+    """Is the raising node reachable from the write when the value of each boolean flag is
+    tracked along the path (one flag at a time)?  `found = True` next to the write and a report
+    under `if not found:` is the idiom this recognises."""
+    for flag in sorted(bool_flags(fn)):
+        tests = {}
+        for n in g.nodes:
+            if n.kind == 'if':
+                t = n.stmt.test
+                if isinstance(t, ast.Name) and t.id == flag:
+                    tests[n.id] = True
+                elif isinstance(t, ast.UnaryOp) and isinstance(t.op, ast.Not) and isinstance(t.operand, ast.Name) and t.operand.id == flag:
+                    tests[n.id] = False
+        if not tests:
+            continue
+        sets = {}
+        for n in g.nodes:
+            if n.kind == 'stmt' and isinstance(n.stmt, ast.Assign) and any(isinstance(t, ast.Name) and t.id == flag for t in n.stmt.targets):
+                sets[n.id] = n.stmt.value.value
+        start = (wid, sets.get(wid, None))
+        seen = {start}
+        todo = [start]
+        found = False
+        while todo:
+            nid, val = todo.pop()
+            for t, lab in g.succ[nid]:
+                if nid == wid and lab in ('exc', 'raise'):
+                    continue
+                if nid in tests and val is not None:
+                    taken = 'true' if (val == tests[nid]) else 'false'
+                    if lab.split('|')[0] in ('true', 'false') and lab.split('|')[0] != taken:
+                        continue
+                if t == rid_:
+                    found = True
+                    break
+                try:
+                    node = g.nodes[t]
+                except (KeyError, IndexError, TypeError):
+                    node = None
+                if node is not None and avoid(node):
+                    continue
+                nv = sets.get(t, val) if t in sets else val
+                st = (t, nv)
+                if st not in seen:
+                    seen.add(st)
+                    todo.append(st)
+            if found:
+                break
+        if not found:
+            return False
+    return True
+
+
 def analyse(eff, key):
     """Yield (write description, raise description, path) candidates."""
     rel, q = key
@@ -195,6 +266,8 @@ def analyse(eff, key):
             esc = g.reachable([rid_], labels=lambda a, b, lab, r=rid_: (a != r) or lab in ('exc', 'raise'))
             if EXIT_EXC not in esc:
                 continue
+            if not flag_feasible(g, fn, wid, rid_, avoid):
+                continue  # every path is cut by a boolean flag the write path sets
             out.append((g.describe(wid), sorted(attrs), g.describe(rid_), eff.site_desc(rel, g.nodes[rid_].stmt) if g.nodes[rid_].kind != 'raise' else ['raise']))
     # a single call that both writes and may raise through *different* callbacks
     for wid, attrs in W.items():
